@@ -35,21 +35,27 @@ def gen_cases(tier, seed):
     for i in range(n):
         rng = gen.rng_for("C18", seed, i)
         cyc = rng.random() < 0.5
-        fam = CYC_FAM if cyc else DAG_FAM
         node = rng.random() < 0.3
         ex = rng.random() < 0.65          # noisy weights in the other cases (MinErrorFlow then has something to correct; flow decompositions reject them)
+        oo_ = dict(rng.choice(OO_POOL))
+        mfd_only = any(k_ in oo_ for k_ in ("use_subgraph_scanning_lowerbound", "use_min_gen_set_lowerbound", "optimize_with_guessed_weights", "optimize_with_flow_safe_paths"))
+        if mfd_only:
+            cyc = False; ex = True          # options that only MinFlowDecomp reads: make sure it is among the steps, on a flow it accepts
+        fam = CYC_FAM if cyc else DAG_FAM
         if node:
             base = I.cyc_node_base(rng, wt="int", max_edges=7, exact=ex) if cyc else I.dag_node_base(rng, wt="int", max_edges=8, exact=ex)
         else:
             base = I.cyc_edge_base(rng, wt="int", max_edges=8, exact=ex) if cyc else I.dag_edge_base(rng, wt="int", max_edges=9, exact=ex)
         steps = [rng.choice(fam + ["MinErrorFlow"]) for _ in range(rng.randint(2, 4))]
+        if mfd_only:
+            steps[rng.randrange(len(steps) - 1)] = "MinFlowDecomp"; steps[-1] = rng.choice(["MinFlowDecomp", "MinFlowDecomp", steps[-1]])
         dflt = (i % 8 == 0)
         queued = cyc and not dflt and i % 3 == 1
         if queued:
             # a walk model that queues variable-bound updates at construction (fix_via_bounds) stays unsolved while the others are solved
             steps[0] = rng.choice(["kFlowDecompCycles", "kMinPathErrorCycles", "kLeastAbsErrorsCycles", "kPathCoverCycles"])
             steps[1] = rng.choice([c_ for c_ in fam + ["MinErrorFlow", "MinErrorFlow"] if c_ != steps[0]])
-        c = {"cyc": cyc, "spec": I.spec_of(base), "steps": steps, "planted": len(base["planted"]), "oo": dict(rng.choice(OO_POOL)), "dflt": dflt,
+        c = {"cyc": cyc, "spec": I.spec_of(base), "steps": steps, "planted": len(base["planted"]), "oo": oo_, "dflt": dflt,
              "group": "dflt" if dflt else "t1", "ignore": [], "cons": [], "scale": [], "superset": None, "share_ignore": rng.random() < 0.5, "node": node,
              "probe_dict": (not node) and cyc and rng.random() < 0.4, "pending": rng.random() < 0.35, "eps": rng.choice([None, None, 0.1, 0.25, 1.0])}
         if queued:
